@@ -1,5 +1,6 @@
 """property id -> check function(prop, tier, replay) -> exit code, plus the MANIFEST metadata"""
 import seqcheck
+import draincheck
 
 CHECKS = {}
 META = {}
@@ -30,3 +31,15 @@ for _p in seqcheck.PLAN:
         "note": "bounded model (2 keys, 2 values, clock 0..3/4); conformance on the sampled scripts only; time logged in scaled units (TLC integers are 32 bit); same-goroutine executor and manual clock as the property states",
         "technique": "TLA+ spec (Cache.tla) model-checked with TLC + trace validation of real executions as a deterministic fold (CacheTrace.tla)",
     }
+
+CHECKS["C14"] = draincheck.run
+META["C14"] = {
+    "engine": "drain-replay",
+    "text": "Drain.tla (one label per shared access of the drain-status protocol) model-checked for NoStranded with every kind of eviction-mutex holder; behaviours of the model and seeded random/PCT schedules are forced onto the real cache (default executor) by the gate scheduler and the cache is audited after quiescence without any further call",
+    "design_ref": "DESIGN.md section 6 (C14), section 3.2 B2",
+    "note": "schedules serialise goroutines at hook granularity; bounded scenarios (2-3 writers, 1-3 writes, one or two extra holders); verdict only from the audit of the real cache",
+    "technique": "TLA+/PlusCal spec (Drain.tla) model-checked with TLC + replay of TLC behaviours as goroutine schedules on the real code",
+}
+ENGINES.append({"name": "drain-replay", "path": "tools/draincheck.py", "serves_properties": ["C14"],
+                "kind_free_text": "TLC model check + simulation of spec/Drain.tla; schedules replayed by harness/kit (gate scheduler over verifhook points) in harness/otter/verif_drain_test.go"})
+HOOK_COMMITS.extend(["3f17fd0", "90d5fc6"])
